@@ -66,6 +66,10 @@ PathTab ==
    pnb   |-> [text |-> "/nb",          segs |-> <<Lit("nb")>>],
    pdupx |-> [text |-> "/dx/{c~d}/x/{c~d}", segs |-> <<Lit("dx"), Par("c~d"), Lit("x"), Par("c~d")>>],
    pdupu |-> [text |-> "/du/{\\xD0\\xB8}/u/{\\xD0\\xB8}", segs |-> <<Lit("du"), Par("\\xD0\\xB8"), Lit("u"), Par("\\xD0\\xB8")>>],   \* a Cyrillic name (UTF-8 bytes written by the harness)
+   pvr   |-> [text |-> "/vr",          segs |-> <<Lit("vr")>>],
+   pvs   |-> [text |-> "/vs",          segs |-> <<Lit("vs")>>],
+   psc1  |-> [text |-> "/sc/{id}",     segs |-> <<Lit("sc"), Par("id")>>],
+   psc2  |-> [text |-> "/sc/{ID}",     segs |-> <<Lit("sc"), Par("ID")>>],              \* differs from {id} in letter case only: another name
    psx1  |-> [text |-> "/sx/{a~b}",    segs |-> <<Lit("sx"), Par("a~b")>>],
    psx2  |-> [text |-> "/sx/{c$d}",    segs |-> <<Lit("sx"), Par("c$d")>>],
    pempty |-> [text |-> "/e/{}",      segs |-> <<Lit("e"), Par("")>>]]
